@@ -1642,22 +1642,7 @@ theorem lastLoop_safe (X : Ctx) (hq : ∀ k, X.o.panicAt k = false) (hz : 0 < X.
         cases hd : step X w1 (.drop it) with
         | mk w2 o2 =>
           rw [hd] at h1 h2
-          cases o2 <;> first | exact ⟨h1, outSane_optOut prev⟩ | exact ⟨h1, trivial⟩ | exact ⟨h1, h2⟩ | skip
-          rename_i q
-          -- (cannot happen without a panicking destructor; the statement does not need that)
-          cases prev with
-          | none => exact ⟨h1, h2⟩
-          | some pv =>
-            simp only
-            split
-            · obtain ⟨h3, h4⟩ := dropIn_safe X hq w2 pv h1
-              cases hdi : dropIn X w2 pv with
-              | mk w3 r =>
-                rw [hdi] at h3 h4
-                simp only at h4
-                subst h4
-                exact ⟨h3, h2⟩
-            · exact ⟨h1, h2⟩
+          cases o2 <;> first | exact ⟨h1, outSane_optOut prev⟩ | exact ⟨h1, trivial⟩ | exact ⟨h1, h2⟩
       · subst hsome
         simp only
         cases prev with
